@@ -19,6 +19,9 @@ fn neg1() -> i64 {
 fn restart_s() -> String {
     "restart".into()
 }
+fn zero_s() -> String {
+    "0".into()
+}
 fn none_s() -> String {
     "none".into()
 }
@@ -43,15 +46,17 @@ pub struct Cfg {
     pub pscr: Vec<Effect>,
     #[serde(default)]
     pub fscr: Vec<Effect>,
+    #[serde(default = "zero_s")]
+    pub ty: String,
 }
 impl Cfg {
     fn is_default(&self) -> bool {
-        self.cap == -1 && self.strat == "restart" && !self.stream && self.tmo == 0 && !self.failto && !self.owning && self.sscr.is_empty() && self.pscr.is_empty() && self.fscr.is_empty()
+        self.cap == -1 && self.strat == "restart" && !self.stream && self.tmo == 0 && !self.failto && !self.owning && self.sscr.is_empty() && self.pscr.is_empty() && self.fscr.is_empty() && self.ty == "0"
     }
 }
 impl Default for Cfg {
     fn default() -> Self {
-        Cfg { cap: -1, strat: "restart".into(), stream: false, tmo: 0, failto: false, owning: false, sscr: vec![], pscr: vec![], fscr: vec![] }
+        Cfg { cap: -1, strat: "restart".into(), stream: false, tmo: 0, failto: false, owning: false, sscr: vec![], pscr: vec![], fscr: vec![], ty: "0".into() }
     }
 }
 
@@ -72,6 +77,10 @@ pub struct Op {
     pub d: i64,
     #[serde(default = "none_s")]
     pub to: String,
+    #[serde(default = "zero_s")]
+    pub ty: String,
+    #[serde(default = "none_s")]
+    pub nh2: String,
     /// builder entry point variant (not part of the spec's record)
     #[serde(default, skip_serializing)]
     pub entry: String,
@@ -119,11 +128,22 @@ pub trait AddrLike {
     fn weak_sender(&self) -> WeakSender<SMsg>;
     fn weak_caller(&self) -> WeakCaller<CMsg>;
     fn aid(&self) -> u64;
+    fn register(self: Box<Self>) -> LocalBoxFuture<'static, HResult<(Box<dyn AddrLike>, Option<Box<dyn AddrLike>>)>>;
+    fn replace(self: Box<Self>) -> LocalBoxFuture<'static, Option<Box<dyn AddrLike>>>;
     fn into_sender_unit(self: Box<Self>) -> Sender<()>;
     fn into_sender_bc(self: Box<Self>) -> Sender<Bc>;
     fn into_sender_bc2(self: Box<Self>) -> Sender<Bc2>;
 }
 impl<const K: usize> AddrLike for Addr<H<K>> {
+    fn register(self: Box<Self>) -> LocalBoxFuture<'static, HResult<(Box<dyn AddrLike>, Option<Box<dyn AddrLike>>)>> {
+        Box::pin(async move {
+            let (me, old) = Addr::register(*self).await?;
+            Ok((Box::new(me) as Box<dyn AddrLike>, old.map(|o| Box::new(o) as Box<dyn AddrLike>)))
+        })
+    }
+    fn replace(self: Box<Self>) -> LocalBoxFuture<'static, Option<Box<dyn AddrLike>>> {
+        Box::pin(async move { Addr::replace(*self).await.map(|o| Box::new(o) as Box<dyn AddrLike>) })
+    }
     fn into_sender_unit(self: Box<Self>) -> Sender<()> {
         (*self).into()
     }
@@ -325,6 +345,12 @@ pub fn take_child(name: &str, owner: &str) -> Option<Box<dyn AddrLike>> {
         }
     })
 }
+/// Called by the harness actor when it starts: binds the context id of a registry-spawned instance.
+pub fn bind_name(aid: u64, name: &str) {
+    TAB.with(|t| {
+        t.borrow_mut().names.entry(aid).or_insert_with(|| name.to_string());
+    });
+}
 fn actor_of(aid: u64) -> String {
     TAB.with(|t| t.borrow().names.get(&aid).cloned()).unwrap_or_else(|| format!("?{aid}"))
 }
@@ -345,13 +371,71 @@ fn okerr<T>(x: &HResult<T>) -> &'static str {
 }
 
 fn spawn_actor(c: &str, o: &Op) -> Res {
+    match o.cfg.ty.as_str() {
+        "0" => spawn_actor_k::<0>(c, o),
+        "1" => spawn_actor_k::<1>(c, o),
+        "2" => spawn_actor_k::<2>(c, o),
+        t => panic!("harness: actor type {t}"),
+    }
+}
+
+async fn registry_op<const K: usize>(o: &Op) -> Res {
+    match o.op.as_str() {
+        "from_registry" => {
+            let a = H::<K>::from_registry().await;
+            let name = actor_of(a.__verif_id());
+            put_h(&o.nh, HandleV::Addr(Box::new(a)));
+            r("ok", name)
+        }
+        "setup" => {
+            let _ = H::<K>::setup().await;
+            let name = H::<K>::try_from_registry().map(|a| actor_of(a.__verif_id())).unwrap_or_else(|| "none".into());
+            r("ok", name)
+        }
+        "unregister" => match Addr::<H<K>>::unregister().await {
+            Some(a) => {
+                let name = actor_of(a.__verif_id());
+                put_h(&o.nh, HandleV::Addr(Box::new(a)));
+                r("some", name)
+            }
+            None => r("none", "none".into()),
+        },
+        "try_from_registry" => {
+            let cur = registered_name::<K>();
+            match H::<K>::try_from_registry() {
+                Some(a) => {
+                    let name = actor_of(a.__verif_id());
+                    put_h(&o.nh, HandleV::Addr(Box::new(a)));
+                    r("ok", name)
+                }
+                None => r("none", cur),
+            }
+        }
+        "already_running" => {
+            let cur = registered_name::<K>();
+            match H::<K>::already_running().await {
+                None => r("none", cur),
+                Some(true) => r("true", cur),
+                Some(false) => r("false", cur),
+            }
+        }
+        other => panic!("harness: registry op {other}"),
+    }
+}
+/// Name of the instance registered for type K right now, for the log only.  The harness keeps its
+/// own record of what the API returned last; it does not look into the registry.
+fn registered_name<const K: usize>() -> String {
+    "*".into()
+}
+
+fn spawn_actor_k<const K: usize>(c: &str, o: &Op) -> Res {
     let ex = crate::actors::exec();
     WORLD.with(|w| {
         w.borrow_mut().scripts.insert(o.a.clone(), ActorScripts { sscr: o.cfg.sscr.clone(), pscr: o.cfg.pscr.clone(), fscr: o.cfg.fscr.clone() })
     });
     ex.label_next_actor(&o.a);
     let cf = &o.cfg;
-    let actor = H::<0>::new();
+    let actor = H::<K>::new();
     let plain = cf.cap == -1 && cf.strat == "restart" && cf.tmo == 0 && !cf.failto && !cf.stream;
     let hv = if plain && o.entry != "builder" {
         if cf.owning { HandleV::Owning(Box::new(actor.spawn_owning())) } else { HandleV::Addr(Box::new(actor.spawn())) }
@@ -547,6 +631,49 @@ async fn run_op(c: &str, n: i64, o: &Op) -> Res {
                     r("ok", a)
                 }
                 None => r("none", a0),
+            }
+        }
+        "from_registry" | "setup" | "unregister" | "try_from_registry" | "already_running" => match o.ty.as_str() {
+            "0" => registry_op::<0>(o).await,
+            "1" => registry_op::<1>(o).await,
+            "2" => registry_op::<2>(o).await,
+            t => panic!("harness: service type {t}"),
+        },
+        "register" => {
+            let h = take_h(&o.h);
+            let a = actor_of(h.aid());
+            let x = match h {
+                Addr(x) => x.register().await,
+                _ => panic!("harness: register on wrong kind"),
+            };
+            match x {
+                Ok((me, old)) => {
+                    put_h(&o.nh, Addr(me));
+                    match old {
+                        Some(old) => {
+                            put_h(&o.nh2, Addr(old));
+                            r("some", a)
+                        }
+                        None => r("ok", a),
+                    }
+                }
+                Err(_) => r("err", a),
+            }
+        }
+        "replace" => {
+            let h = take_h(&o.h);
+            let a = actor_of(h.aid());
+            let x = match h {
+                Addr(x) => x.replace().await,
+                _ => panic!("harness: replace on wrong kind"),
+            };
+            match x {
+                Some(old) => {
+                    let an = actor_of(old.aid());
+                    put_h(&o.nh2, Addr(old));
+                    r("some", an)
+                }
+                None => r("none", a),
             }
         }
         "drop" => {
